@@ -133,6 +133,38 @@ pub fn roundtrip(ctx: &mut Ctx) {
                 x {store,deflate,zstd,xz} x levels x {none,AES,Camellia} x {CBC,CTR} x {pbkdf2 r, argon2id t,m,p} x the five writer kinds x random write partitions x read-buffer schedules; \
                 read back by the library (right / wrong / no password), by the independent primitive-crate reader, and by the model (structure + open-entry decision logic with oracle answers); \
                 non-trivial = at least one entry written; distinct by request line".into();
+    // key-derivation parameters well away from the defaults (C16: "whatever values the writer chose"): time costs beyond 256,
+    // lanes beyond 16, memory beyond the default, PBKDF2 round counts over five orders of magnitude — each cheap to compute
+    {
+        use std::io::Read;
+        let kdfs = [gen::Kdf::Argon2(Some(300), Some(8), Some(1)), gen::Kdf::Argon2(Some(257), Some(8), Some(1)), gen::Kdf::Argon2(Some(1), Some(136), Some(17)),
+                    gen::Kdf::Argon2(Some(1), Some(512), Some(64)), gen::Kdf::Argon2(Some(2), Some(70_000), Some(2)), gen::Kdf::Pbkdf2(Some(1)), gen::Kdf::Pbkdf2(Some(1000)), gen::Kdf::Pbkdf2(Some(200_000))];
+        for (i, kdf) in kdfs.iter().enumerate() {
+            let cfg = gen::Cfg { compression: if i % 2 == 0 { 0 } else { 2 }, level: None, enc: 1 + (i % 2) as u8, mode: (i / 2 % 2) as u8, kdf: kdf.clone(), password: "kdf-sweep pässword".into() };
+            let mut e = gen::gen_entry(&mut rng, 40);
+            e.kind = gen::Kind::File; e.content = crate::util::bytes(&mut rng, 33); e.writes = vec![]; e.link = String::new();
+            let kind = [WriterKind::Builder, WriterKind::SolidBuilder][i % 2];
+            let (c2, e2) = (cfg.clone(), vec![e.clone()]);
+            let r = catch(move || -> std::io::Result<Vec<u8>> {
+                let (bytes, _) = gen::write_archive(kind, &c2, &e2)?;
+                let mut a = Archive::read_header(&bytes[..])?;
+                let es: Vec<NormalEntry> = a.entries_with_password(Some(&c2.password)).collect::<std::io::Result<_>>()?;
+                let mut v = vec![];
+                es[0].reader(ReadOptions::with_password(Some(c2.password.clone())))?.read_to_end(&mut v)?;
+                Ok(v)
+            });
+            ctx.oracle_eval();
+            ctx.count("kdf-parameter-sweep");
+            let attrs = json!({"cfg": cfg.to_json(), "writer": format!("{kind:?}")});
+            match r {
+                Ok(Ok(v)) if v == e.content => {}
+                Ok(Ok(v)) => { ctx.violation("C16", "the right password does not read back what was written with these key-derivation parameters", json!({"case":attrs,"read_len":v.len()})); ctx.violation("C01", "round trip fails for a supported key-derivation parameter set", json!({"case":attrs})); }
+                Ok(Err(err)) => { ctx.violation("C16", "the right password does not read back what was written with these key-derivation parameters", json!({"case":attrs,"error":err.to_string()})); ctx.violation("C01", "round trip fails for a supported key-derivation parameter set", json!({"case":attrs,"error":err.to_string()})); }
+                Err(p) => ctx.violation("C07", "reader panicked", json!({"case":attrs,"panic":p})),
+            }
+            ctx.case_free();
+        }
+    }
     let n = if ctx.thorough { 1500 } else { 110 };
     let mut salts: Vec<String> = vec![];
     let mut ivs: Vec<Vec<u8>> = vec![];
